@@ -8,6 +8,24 @@ props = [json.loads(l) for l in open(os.path.join(V, "properties.jsonl"))]
 PBT = "cvh-pbt"
 # id -> (level, technique, text, note)
 CHECKS = {
+ "C01": ("exploration", "bounded-exhaustive damage enumeration + seeded random PBT; error-or-original and digest==address oracles",
+  "Every single-bit flip and every truncation length of small entries, 12 damage classes under each of the 5 algorithms, and random damage over all sizes; after the damage every checked retrieval entry point (read, read_hash, SyncReader/Reader+check, copy, copy_hash, hard_link*, reflink*) by key and by address in both flavours must return an error or exactly the stored bytes.",
+  "Stream bytes before check() are not judged; reflink success is unreachable on this filesystem."),
+ "C03": ("fault_enumeration", "system-call-level crash-point enumeration under a ptrace supervisor (pause-inspect, torn writes, kills) + no-crash PBT invariant",
+  "Write scenarios run in a driver process under ptrace: the writer is held before EVERY mutating system call and the live content tree is judged (file at its address <=> bytes hash to it, readable through the library); data write(2) calls are torn at every byte length (small data) or generated lengths and the process killed; real kills at selected calls; plus random no-crash programs with rejected commits and abandoned writers.",
+  "Kill model = process death; stores through the memory mapping are not system calls and are not interleaved; supervisor's syscall classification is trusted (cross-checked by C15's outside snapshot)."),
+ "C04": ("fault_enumeration", "system-call-level crash-point enumeration (every kill point, every torn byte length of the index append) + model-based continuation after restart",
+  "For first writes, overwrites, tombstone removals and re-writes with multi-byte UTF-8 keys/metadata: kill before every mutating system call and tear the index append at every byte length; afterwards lookups must show exactly the old or exactly the new state, all other keys the model state, the bucket must decode to the earlier records plus at most the new one, and a generated continuation history must then behave per the model.",
+  "Kill model = process death. Post-crash observation runs through the library in the harness process (the library has no in-process state)."),
+ "C06": ("exploration", "bounded-exhaustive damage enumeration + seeded random PBT against an independent reference reader; verbatim and sync==async clauses",
+  "Every cut length and every single-bit flip of small buckets, each followed by appends, plus random multi-damage cases (garbage incl. invalid UTF-8 and NUL, inserted lines, duplicated fragments, stripped newlines, torn tails) over histories written by the library and by an independent writer; lookups and listing must equal the fold over the records an independent reference reader accepts, sync == async, every returned entry was written verbatim, and appended records are effective.",
+  "Reference reader written from the C17 statement; checksum-valid ill-formed records are out of the stated damage classes."),
+ "C14": ("exploration", "model-based stateful PBT with abandonment points incl. mid-flight drop; temp-area drain oracle",
+  "Programs interleaving successful writes, rejected commits and writers abandoned after creation / after j chunks / mid-flight (future polled once then dropped) / after flush; the model must be unchanged by them after every step and the temp area must drain (tokio: runtime dropped = pool joined; async-std: polled, two snapshots).",
+  "async-std background cleanup is awaited by polling (bounded); a still-changing temp area is inconclusive (exit 2), never a violation."),
+ "C18": ("exploration", "factor-grid + random PBT against the reference model; destination-state oracle",
+  "Full grid over size x damage class x extraction kind x checked x by key/address x flavour x destination state: success leaves exactly the stored bytes (and the byte count for copies); missing key / content give the stated errors; a failed checked extraction leaves the destination absent or exactly as it was.",
+  "Unchecked extraction of damaged content is not judged; reflink success unreachable here."),
  "C02": ("exploration", "round-trip PBT (proptest) over a factor grid + seeded random cases; model digest oracle",
   "Factor grid over algorithm x boundary length (0, 1, 8 KiB±1, 1 MiB±1, multi-MiB) x every write entry point x flavour x size declaration x chunking, plus random writes with hostile keys; every write must succeed, return the independently computed digest, and read back exactly through six read entry points by key and by the returned address. Both async builds.",
   "Healthy tmpfs; digests computed with sha1/sha2/xxhash-rust + own base64 (not ssri). Exploration: no claim beyond the generated inputs."),
